@@ -1655,6 +1655,22 @@ def lib_floor(ex, args, kwargs, pc):
     return r
 
 
+def lib_argmin(ex, args, kwargs, pc):
+    """jnp.argmin of a 1-D Boolean array: the first index holding False, 0 when every entry is True (False < True; ties
+    resolved to the first occurrence)"""
+    a = args[0]
+    if not (isinstance(a, SArr) and len(a.shape) == 1 and a.dtype == "bool"):
+        raise Unsupported("argmin of a non-Boolean array")
+    r = fresh_int("argmin")
+    nn_ = zint(a.shape[0])
+    k = z3.Int("argmin_k")
+    allt = z3.ForAll([k], z3.Implies(z3.And(k >= 0, k < nn_), zbool(a.elem(k))))
+    before = z3.ForAll([k], z3.Implies(z3.And(k >= 0, k < r), zbool(a.elem(k))))
+    ex.extra_axioms = getattr(ex, "extra_axioms", []) + [
+        z3.Or(z3.And(allt, r == 0), z3.And(r >= 0, r < nn_, z3.Not(zbool(a.elem(r))), before))]
+    return r
+
+
 def lib_finfo(ex, args, kwargs, pc):
     """jnp.finfo(dtype): eps / tiny are positive reals below 1, max is a positive real (values not fixed: the dtype of a
     symbolic array is not tracked beyond real / int)"""
@@ -1912,6 +1928,7 @@ LIB = {
     "jnp.zeros": lib_zeros,
     "jnp.ones": lib_ones,
     "jnp.iinfo": lib_iinfo,
+    "jnp.argmin": lib_argmin,
     "jnp.floor": lib_floor,
     "jnp.broadcast_to": lib_broadcast_to,
     "jnp.finfo": lib_finfo,
